@@ -120,6 +120,21 @@ def handle (entry : String) (j : Json) : Except String Json := do
     let n ← getNat (← field j "n")
     pure <| Json.mkObj [("model", rats (karplus alpha delay memory n)),
                         ("spec", rats (karplusSpec alpha delay memory n))]
+  | "resample" =>
+    let sig ← getList getRat (← field j "sig")
+    let step ← getArg (← field j "step")
+    let order ← getNat (← field j "order")
+    let zero ← getRat (← field j "zero")
+    let n ← getNat (← field j "n")
+    let endStr : ResEnd → String := fun e => match e with
+      | .fuel => "fuel" | .input => "input" | .step => "step"
+    let model : Json := match resample sig step order zero n with
+      | .ok (xs, e) => Json.mkObj [("out", rats xs), ("end", Json.str (endStr e))]
+      | .error e => Json.mkObj [("err", Json.str e)]
+    let sp := resampleSpec sig step order zero n
+    pure <| Json.mkObj [("model", model),
+      ("spec", Json.mkObj [("out", rats sp.1), ("ended", Json.bool sp.2)]),
+      ("short", Json.bool (resShort sig order))]
   | _ => throw s!"C19: unknown entry {entry}"
 
 end ALV.Driver.C19
